@@ -266,8 +266,21 @@ func checkC15(c *Ctx) {
 		for f := range recvFns {
 			rf = f
 		}
+		// the receiving function may be a step of the loop (serveNext) called from the one
+		// function that is started as the hub goroutine: follow single synchronous callers
+		loopFn := rf
+		for depth := 0; depth < 3; depth++ {
+			cs := p.CallersOf(loopFn)
+			if len(cs) != 1 {
+				break
+			}
+			if _, isCall := cs[0].Site.(*ssa.Call); !isCall || eng.FuncPkgPath(cs[0].Caller.Func) != eng.FuncPkgPath(rf) {
+				break
+			}
+			loopFn = cs[0].Caller.Func
+		}
 		starts := 0
-		for _, e := range p.CallersOf(rf) {
+		for _, e := range p.CallersOf(loopFn) {
 			if _, isGo := e.Site.(*ssa.Go); isGo {
 				starts++
 			} else {
@@ -878,6 +891,30 @@ func c15CountedByLen(phi *ssa.Phi) bool {
 		for _, ref := range *q.Referrers() {
 			if bo, ok := ref.(*ssa.BinOp); ok && bo.Op == token.LSS {
 				if call, ok := bo.Y.(*ssa.Call); ok && eng.CalleeName(call.Common()) == "(*container/ring.Ring).Len" {
+					return true
+				}
+			}
+		}
+		// counting down: remaining := r.Len(); remaining > 0; remaining--
+		fromLen, dec := false, false
+		for _, e := range q.Edges {
+			if call, ok := e.(*ssa.Call); ok && eng.CalleeName(call.Common()) == "(*container/ring.Ring).Len" {
+				fromLen = true
+			}
+			if bo, ok := e.(*ssa.BinOp); ok && bo.Op == token.SUB && bo.X == ssa.Value(q) {
+				if k, isC := eng.ConstInt(bo.Y); isC && k == 1 {
+					dec = true
+				}
+			}
+		}
+		if fromLen && dec && len(q.Edges) == 2 {
+			for _, ref := range *q.Referrers() {
+				bo, ok := ref.(*ssa.BinOp)
+				if !ok || bo.X != ssa.Value(q) {
+					continue
+				}
+				k, isC := eng.ConstInt(bo.Y)
+				if isC && k == 0 && (bo.Op == token.GTR || bo.Op == token.NEQ) {
 					return true
 				}
 			}
